@@ -55,6 +55,9 @@ def gen_float(rng, prof):
         return round(rng.uniform(0, 1000), rng.randint(1, 4))
     if r < 0.85:
         return round(rng.uniform(-50, 50), 3)
+    if r < 0.88:
+        # extreme magnitudes: three-digit exponents, the largest doubles, subnormals
+        return rng.choice([1e-100, 2.5e-310, 5e-324, 1.7e+308, 1e100, 2.2250738585072014e-308, 1e-308, 1.5e300, -3e-200]) * rng.choice([1, 1, -1])
     if r < 0.92:
         # full-precision doubles (16-17 significant digits) over several magnitudes: repr() gives long positional or scientific text
         return rng.uniform(0.1, 1) * 10.0 ** rng.randint(-6, 4) * rng.choice([1, 1, -1])
@@ -176,6 +179,8 @@ class Bed3(Format):
 
     def gen_record(self, rng, prof, style, i):
         c = "chr" + ident(rng, prof, string.digits + "XYM_", string.digits + "XYM")
+        if rng.random() < 0.15:
+            c = rng.choice(["1", "X", "2", "MT", "10"])          # Ensembl-style names without the 'chr' prefix
         a, b = _interval(rng, prof)
         nc = style.get("noncanon")
         return {"values": {"chromosome": c, "start": a, "stop": b}, "texts": [c, spell_int(a, rng, nc), spell_int(b, rng, nc)]}
